@@ -61,6 +61,14 @@ fn pre() -> Pre {
     }
     let owner = any::address(4);
     model::with_contract(&tok(), || interfaces::set_owner(&env, &owner));
+    // arbitrary minter set over all principals (the unchanged code only consults it when minting;
+    // a changed implementation may consult it anywhere)
+    let mut mi = 1;
+    while mi <= 4 {
+        let is_m: bool = kani::any();
+        model::storage_set_if(is_m, &tok(), 0, &k(&DataKey::Minter(Address(mi))), &Val::VOID);
+        mi += 1;
+    }
     let seq: u32 = kani::any();
     model::set_ledger(kani::any(), seq);
     let al_from = any::address(3);
@@ -246,8 +254,7 @@ fn c12_queries() {
 fn c12_mint_from() {
     let s = pre();
     let minter = any::address(4);
-    let was_minter: bool = kani::any();
-    model::storage_set_if(was_minter, &tok(), 0, &k(&DataKey::Minter(minter.clone())), &Val::VOID);
+    let was_minter = is_minter(&minter); // arbitrary: pre() seeds an arbitrary minter set
     let to = any::address(3);
     let amount: i128 = kani::any();
     let via_owner: bool = kani::any();
@@ -278,10 +285,7 @@ fn c06_minter_admin() {
     let s = pre();
     let target = any::address(4);
     let witness = any::address(4);
-    let t_was: bool = kani::any();
-    let w_was: bool = kani::any();
-    model::storage_set_if(t_was, &tok(), 0, &k(&DataKey::Minter(target.clone())), &Val::VOID);
-    model::storage_set_if(w_was && witness != target, &tok(), 0, &k(&DataKey::Minter(witness.clone())), &Val::VOID);
+    let w_was = is_minter(&witness); // arbitrary: pre() seeds an arbitrary minter set
     let add: bool = kani::any();
     model::with_contract(&tok(), || {
         if add {
